@@ -149,7 +149,8 @@ INHERIT_SHAPES = [
 
 def inheritance_family(ck: Check) -> None:
     """render / call from inside an overridden inheritance block: the partial (macro body) still sees only its arguments, its
-    bound variable and global data -- not what the base template assigned, captured or bound around the block (oracle only)."""
+    bound variable and global data -- not what the base template assigned, captured or bound around the block (fixed shapes incl. block.super, direct oracle;
+    family F in run() generates such chains under the model correspondence)."""
     from liquid import DictLoader, Environment
     import liquid.extra as ex
 
@@ -195,7 +196,10 @@ def run(ck: Check) -> None:  # noqa: PLR0912, PLR0915
         "caller's probes after the tag equal its probes before it and its counters continue; (C) a partial or macro body reaching an include "
         "tag raises DisabledTagError, at any block depth and through a nested render; (D) a partial rendered from inside another partial or a "
         "macro body prints the same whatever the enclosing partial's / macro's arguments are; (E) render .. for over 2-3 items prints the "
-        "concatenation of rendering each item on its own. Non-trivial = the body reads or writes a name "
+        "concatenation of rendering each item on its own; (F) a render / call tag inside an OVERRIDDEN inheritance block (extends / "
+        "block of liquid.extra) of base templates that assign, capture, count and block-scope x, y, z prints what the same tag prints at the "
+        "top level of a template without local state, the base template's probes after the block equal those before it, and a rendered "
+        "partial that extends a base template cannot include from its overriding block. Non-trivial = the body reads or writes a name "
         "the caller binds; distinct = distinct (body, tag, caller) triple."
     )
     ck.exhaustive = False
@@ -320,6 +324,65 @@ def run(ck: Check) -> None:  # noqa: PLR0912, PLR0915
             i, s = run_case(f"enabled:{wname}:{fi}", case)
             if inc[1] == "inc" and s[0] != "out":
                 report("include-disabled-at-top-level", f"{L.case_sources(case)} gave {s}", [i])
+
+    # ------------------------------------------------------------- F: render / call from inside an overridden inheritance block
+    n_inh = 40 if ck.quick else 400
+    for gi in range(n_inh):
+        loader = {"p": None}
+        loader["p"] = gen_body(rng, 1, loader, allow_nested=False)
+        if rng.random() < 0.7:
+            kind, tag_nodes = "render", [render_tag(rng, "p", True)]
+        else:
+            params = [(nm, rng.choice([None, lit("dflt"), P("g1")])) for nm in rng.sample(NAMES, rng.randrange(0, 3))]
+            kws = [(rng.choice(NAMES + ["w"]), rng.choice([lit("k1"), P("g2")])) for _ in range(rng.randrange(0, 3))]
+            kind, tag_nodes = "call", [("macro", "mm", params, gen_body(rng, 1, loader, allow_nested=False)), ("call", "mm", kws)]
+        marked = [text(OPEN)] + tag_nodes + [text(CLOSE)]
+        # reference: the same tag at the top level of a template with no local state at all
+        i0, s0 = run_case(f"inherit:{kind}:toplevel", L.mk_case(marked, loader=loader, args=dict(GLOBALS)))
+        group, outs = [i0], [s0]
+        for variant in (1, 2):
+            block_body = probes("k=") + marked + [assign(rng.choice(NAMES), lit(f"B{variant}")), ("incr", rng.choice(NAMES))]
+            base = gen_caller_state(rng, variant) + wrap_once(rng, variant, probes("b=") + [("block", "blk", [text("own")])] + probes("a="))
+            case = L.mk_case([("extends", "base", [("blk", block_body)])], loader=dict(loader, base=base), args=dict(GLOBALS))
+            i, s = run_case(f"inherit:{kind}:block{variant}", case)
+            group.append(i)
+            outs.append(s)
+            ck.note_case(("inherit", kind, L.case_json(case)))
+            ck.count(f"inherit.{kind}.{'err' if s[0] == 'err' else 'ok'}")
+            if s[0] == "out" and PROBE_B.findall(s[1]) != PROBE_A.findall(s[1]):
+                report("block-changes-base-template-variables",
+                       f"the base template's x,y,z read {PROBE_B.findall(s[1])} before the overridden block and {PROBE_A.findall(s[1])} after it: "
+                       f"{L.case_sources(case)}", [i])
+        segs = [segments(o) for o in outs]
+        if all(o[0] == "out" for o in outs):
+            if not (segs[0] == segs[1] == segs[2]):
+                report(f"{kind}-inside-overridden-block-sees-base-locals",
+                       f"the text of the {kind}ed body is {segs[0]} at the top level but {segs[1:]} from inside an overridden block of base templates "
+                       f"with local state: {L.case_sources(meta[group[1]][1])}", group)
+        elif len({o[0] for o in outs}) != 1:
+            report(f"{kind}-inside-overridden-block-ends-differently", f"top level / blocks end differently: {outs}", group)
+    # a rendered partial (or a macro body) that extends a base template still cannot include, from inside its overriding block either
+    for wname, w in wrappers:
+        blk = w([text("b"), ("include", "inc", None, []), text("c")])
+        child = [("extends", "base", [("blk", blk)])]
+        base = [text("<"), ("block", "blk", [text("own")]), text(">")]
+        shapes = {
+            "render>extends": ([("render", "child", None, [])], {"child": child, "base": base, "inc": [text("I")]}),
+            "render>render>extends": ([("render", "q", None, [])], {"q": [("render", "child", None, [])], "child": child, "base": base, "inc": [text("I")]}),
+            "render>block": ([("render", "solo", None, [])], {"solo": [("block", "blk", blk)], "inc": [text("I")]}),
+        }
+        for sname, (tagn, ld) in shapes.items():
+            case = L.mk_case([text("(")] + tagn + [text(")")], loader=ld, args=dict(GLOBALS))
+            i, s = run_case(f"disabled:{sname}:{wname}", case)
+            ck.note_case(("disabled-block", sname, wname))
+            ck.count("include-in-isolated." + sname)
+            if s != ("err", "EDisabledTag"):
+                report("include-allowed-in-block-of-rendered-partial", f"{L.case_sources(case)} gave {s}, expected DisabledTagError", [i])
+        # from the top level the same chain may include
+        case = L.mk_case(child, loader={"base": base, "inc": [text("I")]}, args=dict(GLOBALS))
+        i, s = run_case(f"enabled:extends:{wname}", case)
+        if s[0] != "out":
+            report("include-disabled-in-top-level-block", f"{L.case_sources(case)} gave {s}", [i])
 
     # ------------------------------------------------------------- E: render ... for renders the items independently
     n_for = 30 if ck.quick else 300
@@ -450,6 +513,12 @@ def replay(data) -> int:
             bad = o[0] == "out" and PROBE_B.findall(o[1]) != PROBE_A.findall(o[1])
         elif orc.endswith("shares-counters"):
             bad = outs[0] != ("out", "0|011|1|2")
+        elif orc.endswith("sees-base-locals"):
+            segs = [segments(o) for o in outs]
+            print("text of the isolated body, top level then blocks:", segs)
+            bad = all(o[0] == "out" for o in outs) and len({repr(x) for x in segs}) != 1
+        elif orc.endswith("ends-differently"):
+            bad = len({o[0] for o in outs}) != 1
         elif orc.startswith("include-allowed"):
             bad = outs[0] != ("err", "EDisabledTag")
         else:
